@@ -75,6 +75,10 @@ def run(check: Check, repo: Repo, tier: str) -> None:
     G.dispatch_loop_break(check, funcs)
     X.handler_nulls(check, repo, repo.package_modules("execution"))
     X.zip_align(check, repo, repo.package_modules("execution"))
+    # the errors account for the positions that were nulled: item paths carry the right index (shared with C03)
+    G.loop_counter(check, [f for m in repo.package_modules("execution") for f in m.functions()])
+    check.floor("LOOP-COUNTER", 2, "manually indexed completion loops")
+    X.path_threading(check, repo)
     G.sentinel_identity(check, mods)
     check.floor("SENTINEL-IDENTITY", 15, "comparisons against Undefined on the argument/variable path")
     # dispatch exhaustiveness
